@@ -462,12 +462,25 @@ package redis
 //@ ensures {C10} old(hasArg(args, 1)) && !old(intArg(args, 1)) ==> err != nil
 //@ ensures old(args.index) <= args.index && args.index <= old(args.index) + 2
 
+// limitAt(a, k): argument k after the cursor is the option word LIMIT; limitOnly(a, k): arguments k.. are exactly "LIMIT <int> <int>"
+//@ spec func limitAt(a ref, k int) bool = strArg(a, k) && toUpper(argS(a, k)) == "LIMIT"
+//@ spec func limitOnly(a ref, k int) bool = len(a.msgs) == a.index + k + 3 && limitAt(a, k) && intArg(a, k + 1) && intArg(a, k + 2)
+
 //@ func nextRangeOptionArguments
 //@ requires args != nil
 //@ assigns args.index
 //@ ensures old(args.index) <= args.index
+// LIMIT without its two integers is an error, never a default
+//@ ensures {C10} old(limitAt(args, 0)) && (!old(intArg(args, 1)) || !old(intArg(args, 2))) ==> err != nil
+//@ ensures {C05} !old(hasArg(args, 0)) ==> err == nil && result0.Offset == 0 && result0.Count == -1 && !result0.WITHSCORES && !result0.BYSCORE && !result0.REV
+//@ ensures {C05} old(oneOpt(args, "WITHSCORES")) ==> err == nil && result0.WITHSCORES && result0.Offset == 0 && result0.Count == -1 && !result0.BYSCORE
+//@ ensures {C05} old(limitOnly(args, 0)) ==> err == nil && result0.Offset == old(argI(args, 1)) && result0.Count == old(argI(args, 2)) && !result0.WITHSCORES && !result0.BYSCORE
 //@ loop 0
 //@   invariant old(args.index) <= args.index && args.index <= len(args.msgs)
+//@   invariant {C10} old(limitAt(args, 0)) && (!old(intArg(args, 1)) || !old(intArg(args, 2))) ==> err == nil && args.index == old(args.index) + 1 && param == old(argS(args, 0))
+//@   invariant {C05} !old(hasArg(args, 0)) ==> err == proto.ErrEOM && opt.Offset == 0 && opt.Count == -1 && !opt.WITHSCORES && !opt.BYSCORE && !opt.REV
+//@   invariant {C05} old(oneOpt(args, "WITHSCORES")) ==> (err == nil && args.index == old(args.index) + 1 && param == old(argS(args, 0)) && !opt.WITHSCORES && opt.Offset == 0 && opt.Count == -1 && !opt.BYSCORE) || (err == proto.ErrEOM && opt.WITHSCORES && opt.Offset == 0 && opt.Count == -1 && !opt.BYSCORE)
+//@   invariant {C05} old(limitOnly(args, 0)) ==> (err == nil && args.index == old(args.index) + 1 && param == old(argS(args, 0)) && !opt.WITHSCORES && !opt.BYSCORE) || (err == proto.ErrEOM && opt.Offset == old(argI(args, 1)) && opt.Count == old(argI(args, 2)) && !opt.WITHSCORES && !opt.BYSCORE)
 //@   decreases len(args.msgs) - args.index + (err == nil ? 1 : 0)
 
 //@ func nextExpireArgument
@@ -801,12 +814,33 @@ package redis
 //@ executor "HLEN"
 //@ ensures {C12} err == nil ==> result0 != nil && result0.Type == proto.IntegerMessage
 
+// MSET / MSETNX: every handler call of the request is made on the request's connection; MSET stores unconditionally (default options),
+// MSETNX first reads and then stores with the NX flag so that the handler can still refuse a key that appeared meanwhile.
+//@ executor "MSET"
+//@ ensures {C05,C12} old(H_calls) <= H_calls
+//@ ensures {C05,C12} forall i int :: old(H_calls) <= i && i < H_calls ==> H_m[i] == "Set" && H_conn[i] == conn && !H_Set_opt_NX[i] && !H_Set_opt_XX[i] && !H_Set_opt_GET[i] && !H_Set_opt_KEEPTTL[i] && H_Set_opt_EX[i] == 0 && H_Set_opt_PX[i] == 0
+//@ loop 0
+//@   invariant old(H_calls) <= H_calls && !opt.NX && !opt.XX && !opt.GET && !opt.KEEPTTL && opt.EX == 0 && opt.PX == 0
+//@   invariant forall i int :: old(H_calls) <= i && i < H_calls ==> H_m[i] == "Set" && H_conn[i] == conn && !H_Set_opt_NX[i] && !H_Set_opt_XX[i] && !H_Set_opt_GET[i] && !H_Set_opt_KEEPTTL[i] && H_Set_opt_EX[i] == 0 && H_Set_opt_PX[i] == 0
+
+//@ executor "MSETNX"
+//@ ensures {C05,C12} old(H_calls) <= H_calls
+//@ ensures {C05,C12} forall i int :: old(H_calls) <= i && i < H_calls ==> H_conn[i] == conn && (H_m[i] == "Get" || (H_m[i] == "Set" && H_Set_opt_NX[i] && !H_Set_opt_XX[i] && !H_Set_opt_GET[i] && !H_Set_opt_KEEPTTL[i] && H_Set_opt_EX[i] == 0 && H_Set_opt_PX[i] == 0))
+//@ loop 0
+//@   invariant old(H_calls) <= H_calls
+//@   invariant forall i int :: old(H_calls) <= i && i < H_calls ==> H_conn[i] == conn && H_m[i] == "Get"
+//@ loop 1
+//@   invariant old(H_calls) <= H_calls && opt.NX && !opt.XX && !opt.GET && !opt.KEEPTTL && opt.EX == 0 && opt.PX == 0
+//@   invariant forall i int :: old(H_calls) <= i && i < H_calls ==> H_conn[i] == conn && (H_m[i] == "Get" || (H_m[i] == "Set" && H_Set_opt_NX[i] && !H_Set_opt_XX[i] && !H_Set_opt_GET[i] && !H_Set_opt_KEEPTTL[i] && H_Set_opt_EX[i] == 0 && H_Set_opt_PX[i] == 0))
+
 //@ executor "ZRANGEBYSCORE"
 //@ ensures {C05} H_calls == old(H_calls) + 1 ==> H_m[old(H_calls)] == "ZRangeByScore" && H_conn[old(H_calls)] == conn && H_ZRangeByScore_key[old(H_calls)] == old(argS(args, 0)) && result0 == H_res[old(H_calls)] && err == H_err[old(H_calls)]
 //@ ensures {C05} H_calls == old(H_calls) + 1 ==> H_ZRangeByScore_min[old(H_calls)] == parseF(scoreText(old(argS(args, 1)))) && H_ZRangeByScore_max[old(H_calls)] == parseF(scoreText(old(argS(args, 2))))
 //@ ensures {C05} H_calls == old(H_calls) + 1 ==> H_ZRangeByScore_opt_MINEXCLUSIVE[old(H_calls)] == scoreExcl(old(argS(args, 1))) && H_ZRangeByScore_opt_MAXEXCLUSIVE[old(H_calls)] == scoreExcl(old(argS(args, 2)))
 //@ ensures {C05,C10} H_calls == old(H_calls) || H_calls == old(H_calls) + 1
 //@ ensures {C10} !old(strArg(args, 0)) || !old(strArg(args, 1)) || !old(strArg(args, 2)) ==> err != nil && H_calls == old(H_calls)
+//@ ensures {C10} old(limitAt(args, 3)) && (!old(intArg(args, 4)) || !old(intArg(args, 5))) ==> err != nil && H_calls == old(H_calls)
+//@ ensures {C05} H_calls == old(H_calls) + 1 && old(limitOnly(args, 3)) ==> H_ZRangeByScore_opt_Offset[old(H_calls)] == old(argI(args, 4)) && H_ZRangeByScore_opt_Count[old(H_calls)] == old(argI(args, 5))
 
 //@ executor "ZREVRANGEBYSCORE"
 //@ ensures {C05} H_calls == old(H_calls) + 1 ==> H_m[old(H_calls)] == "ZRangeByScore" && H_conn[old(H_calls)] == conn && H_ZRangeByScore_key[old(H_calls)] == old(argS(args, 0))
@@ -814,6 +848,8 @@ package redis
 //@ ensures {C05} H_calls == old(H_calls) + 1 ==> H_ZRangeByScore_opt_MAXEXCLUSIVE[old(H_calls)] == scoreExcl(old(argS(args, 1))) && H_ZRangeByScore_opt_MINEXCLUSIVE[old(H_calls)] == scoreExcl(old(argS(args, 2)))
 //@ ensures {C05,C10} H_calls == old(H_calls) || H_calls == old(H_calls) + 1
 //@ ensures {C10} !old(strArg(args, 0)) || !old(strArg(args, 1)) || !old(strArg(args, 2)) ==> err != nil && H_calls == old(H_calls)
+//@ ensures {C10} old(limitAt(args, 3)) && (!old(intArg(args, 4)) || !old(intArg(args, 5))) ==> err != nil && H_calls == old(H_calls)
+//@ ensures {C05} H_calls == old(H_calls) + 1 && old(limitOnly(args, 3)) ==> H_ZRangeByScore_opt_Offset[old(H_calls)] == old(argI(args, 4)) && H_ZRangeByScore_opt_Count[old(H_calls)] == old(argI(args, 5))
 
 //@ executor "ZRANGE"
 //@ ensures {C05} H_calls == old(H_calls) + 1 ==> (H_m[old(H_calls)] == "ZRangeByScore" || H_m[old(H_calls)] == "ZRange") && H_conn[old(H_calls)] == conn && result0 == H_res[old(H_calls)] && err == H_err[old(H_calls)]
@@ -821,11 +857,18 @@ package redis
 //@ ensures {C05} H_calls == old(H_calls) + 1 && H_m[old(H_calls)] == "ZRange" ==> H_ZRange_key[old(H_calls)] == old(argS(args, 0)) && !H_ZRange_opt_BYSCORE[old(H_calls)]
 //@ ensures {C05,C10} H_calls == old(H_calls) || H_calls == old(H_calls) + 1
 //@ ensures {C10} !old(strArg(args, 0)) || !old(strArg(args, 1)) || !old(strArg(args, 2)) ==> err != nil && H_calls == old(H_calls)
+//@ ensures {C10} old(limitAt(args, 3)) && (!old(intArg(args, 4)) || !old(intArg(args, 5))) ==> err != nil && H_calls == old(H_calls)
+//@ ensures {C05} H_calls == old(H_calls) + 1 && H_m[old(H_calls)] == "ZRange" && old(limitOnly(args, 3)) ==> H_ZRange_opt_Offset[old(H_calls)] == old(argI(args, 4)) && H_ZRange_opt_Count[old(H_calls)] == old(argI(args, 5))
 
 //@ executor "ZREVRANGE"
 //@ ensures {C05,C12} H_calls >= old(H_calls) + 1 ==> H_m[old(H_calls)] == "ZRange" && H_conn[old(H_calls)] == conn && H_ZRange_key[old(H_calls)] == old(argS(args, 0)) && H_ZRange_start[old(H_calls)] == -1 - old(argI(args, 2)) && H_ZRange_stop[old(H_calls)] == -1 - old(argI(args, 1))
 //@ ensures {C05,C10} H_calls == old(H_calls) || H_calls == old(H_calls) + 1
 //@ ensures {C10} !old(strArg(args, 0)) || !old(intArg(args, 1)) || !old(intArg(args, 2)) ==> err != nil && H_calls == old(H_calls)
+//@ ensures {C10} old(limitAt(args, 3)) && (!old(intArg(args, 4)) || !old(intArg(args, 5))) ==> err != nil && H_calls == old(H_calls)
+// the reply is the handler's forward reply with its elements (member/score pairs under WITHSCORES) in reverse order
+//@ ensures {C12} err == nil && H_calls == old(H_calls) + 1 ==> result0 != nil && H_res[old(H_calls)] != nil && H_res[old(H_calls)].array != nil && result0.Type == proto.ArrayMessage && result0.array != nil && len(result0.array.msgs) == len(H_res[old(H_calls)].array.msgs)
+//@ ensures {C12} err == nil && H_calls == old(H_calls) + 1 && !H_ZRange_opt_WITHSCORES[old(H_calls)] ==> forall k int :: 0 <= k && k < len(result0.array.msgs) ==> result0.array.msgs[k] == H_res[old(H_calls)].array.msgs[len(result0.array.msgs) - 1 - k]
+//@ ensures {C12} err == nil && H_calls == old(H_calls) + 1 && H_ZRange_opt_WITHSCORES[old(H_calls)] ==> forall k int :: 0 <= k && k < len(result0.array.msgs) ==> result0.array.msgs[k] == H_res[old(H_calls)].array.msgs[len(result0.array.msgs) - 2 - k + 2 * (k % 2)]
 
 // ---------------------------------------------------------------- lemmas_verif.go (constructors decode back to the Go value, C01)
 
